@@ -1,3 +1,4 @@
+import threading
 from collections.abc import Hashable
 from typing import Dict, Generic, Optional, TypeVar, cast
 
@@ -30,8 +31,14 @@ class LRUCache(Generic[T]):
         self.tail = CacheNode[T]("", cast(T, None))  # Least recently used
         self.head.next = self.tail
         self.tail.prev = self.head
+        # The dict and the linked list must change together, also when used from multiple threads
+        self._lock = threading.RLock()
 
     def get(self, key: Hashable) -> Optional[T]:
+        with self._lock:
+            return self._get(key)
+
+    def _get(self, key: Hashable) -> Optional[T]:
         """
         Retrieve the value associated with the key.
 
@@ -57,6 +64,10 @@ class LRUCache(Generic[T]):
         return key in self.cache
 
     def set(self, key: Hashable, value: T) -> None:
+        with self._lock:
+            self._set(key, value)
+
+    def _set(self, key: Hashable, value: T) -> None:
         """
         Insert or update the value associated with the key.
 
@@ -89,6 +100,10 @@ class LRUCache(Generic[T]):
             self._add_to_front(new_node)
 
     def clear(self) -> None:
+        with self._lock:
+            self._clear()
+
+    def _clear(self) -> None:
         """Clear the cache."""
         self.cache.clear()
         self.head.next = self.tail
